@@ -210,7 +210,15 @@ func (r *xrun) key() string {
 		b.WriteByte('|')
 	}
 	for ti, t := range r.s.Threads {
-		fmt.Fprintf(&b, "|%d:%d:%d:", ti, t.Kind, t.Site)
+		// the same source line serves every case of a select: which channel's mutex /
+		// condition variable the thread is at belongs to its control state
+		at := -1
+		for ci, c := range r.chs {
+			if t.M == &c.mutex.M || t.C == &c.cond.C {
+				at = ci
+			}
+		}
+		fmt.Fprintf(&b, "|%d:%d:%d:%d:", ti, t.Kind, t.Site, at)
 		for _, o := range r.ops[ti] {
 			fmt.Fprintf(&b, "%c", o.op.K)
 			for _, s := range o.slots {
@@ -410,6 +418,7 @@ type xlin struct {
 	allowMirrored   bool // two blocked selects, one of which sends and receives on one unbuffered channel
 	allowArmedTry   bool // a blocked operation that armed chanHasRecv and still has an empty buffer
 	noDefaultInstant bool
+	allowSendFirst   bool // two blocked selects; the receiving one probes its sends first and so refuses select-senders
 }
 
 type xspec struct {
@@ -590,6 +599,13 @@ func (l *xlin) final(st xspec) bool {
 				}
 				for _, g := range p.offers {
 					if g.ch == c && g.send != f.send {
+						recv := o
+						if f.send {
+							recv = p
+						}
+						if l.allowSendFirst && o.sel && p.sel && sendFirstOffers(recv.offers) {
+							continue
+						}
 						return false
 					}
 				}
@@ -597,6 +613,20 @@ func (l *xlin) final(st xspec) bool {
 		}
 	}
 	return true
+}
+
+// selectSendFirst of z_chan.go on the offers (channel addresses increase with the index)
+func sendFirstOffers(fs []offer) bool {
+	minS, minR := 1<<30, 1<<30
+	for _, f := range fs {
+		if f.send && f.ch < minS {
+			minS = f.ch
+		}
+		if !f.send && f.ch < minR {
+			minR = f.ch
+		}
+	}
+	return minS < 1<<30 && minS < minR
 }
 
 func xoffers(op XOp) []offer {
@@ -683,8 +713,8 @@ func (r *xrun) hops() []xhop {
 
 func xcheck(caps []int, hs []xhop, deadlock bool, relax ...bool) bool {
 	l := &xlin{caps: caps, ops: hs, deadlock: deadlock, bad: map[string]bool{}}
-	if len(relax) == 3 {
-		l.allowMirrored, l.allowArmedTry, l.noDefaultInstant = relax[0], relax[1], relax[2]
+	if len(relax) == 4 {
+		l.allowMirrored, l.allowArmedTry, l.noDefaultInstant, l.allowSendFirst = relax[0], relax[1], relax[2], relax[3]
 	}
 	st := xspec{closed: make([]bool, len(caps))}
 	for range caps {
@@ -718,6 +748,7 @@ func (r *xrun) classify(hs []xhop, dead bool) []string {
 	end := 2*r.stepNo + 2
 	rep := append([]xhop(nil), hs...)
 	var base []string
+	var extra []xhop
 	add := func(k string) {
 		for _, x := range base {
 			if x == k {
@@ -747,6 +778,11 @@ func (r *xrun) classify(hs []xhop, dead bool) []string {
 					default:
 						add("unbuffered-select-recv-blocked-after-delivery")
 					}
+				} else if !h.pending && h.kind == 'a' && h.act != f && r.chs[f.ch].close {
+					// the same, but the select then went on and committed ANOTHER case: the value
+					// handed to this receive case is lost; count it as an additional receive
+					extra = append(extra, delivered)
+					add("unbuffered-recv-delivered-value-reported-closed")
 				} else if !h.pending && (h.kind == 'z' || h.kind == 'f' || h.kind == 'P') && r.chs[f.ch].close {
 					// handed over, then close won the race for the lock: reported as closed /
 					// as "not ready" (select goes on to default or to a panicking send case)
@@ -756,21 +792,28 @@ func (r *xrun) classify(hs []xhop, dead bool) []string {
 			}
 		}
 	}
+	rep = append(rep, extra...)
 	if len(base) > 0 && xcheck(r.cfg.Caps, rep, dead) {
 		return base
 	}
 	names := []string{"select-send-and-recv-same-unbuffered-channel-stuck",
-		"unbuffered-recv-armed-for-counted-sender-then-blocked", "tryselect-default-cases-probed-one-after-the-other"}
-	for _, m := range []int{1, 2, 4, 3, 5, 6, 7} { // subsets of the relaxations, small ones first
-		if xcheck(r.cfg.Caps, rep, dead, m&1 != 0, m&2 != 0, m&4 != 0) {
+		"unbuffered-recv-armed-for-counted-sender-then-blocked", "tryselect-default-cases-probed-one-after-the-other",
+		"select-sendfirst-receiver-refuses-select-senders"}
+	for _, m := range []int{1, 2, 4, 8, 3, 5, 6, 9, 10, 12, 7, 11, 13, 14, 15} { // subsets of the relaxations, small ones first
+		if xcheck(r.cfg.Caps, rep, dead, m&1 != 0, m&2 != 0, m&4 != 0, m&8 != 0) {
 			ks := append([]string{}, base...)
-			for b := 0; b < 3; b++ {
+			for b := 0; b < 4; b++ {
 				if m&(1<<uint(b)) != 0 {
 					ks = append(ks, names[b])
 				}
 			}
 			return ks
 		}
+	}
+	if dead && xcheck(r.cfg.Caps, rep, false) {
+		// the results are fine; what is wrong is that everybody sleeps although pending
+		// operations could complete together: a lost wake-up
+		return append(base, "select-deadlock-while-matching-operations-pending")
 	}
 	return []string{"select-history-not-linearizable"}
 }
@@ -783,6 +826,8 @@ var xwhat = map[string]string{
 	"select-send-and-recv-same-unbuffered-channel-stuck": "a blocking select that offers a send AND a receive on the same unbuffered channel refuses select-senders on it (acceptSelectSend is switched off for that channel) and arms no receiver for them: it and another select that could be served by it stay blocked for ever",
 	"unbuffered-recv-armed-for-counted-sender-then-blocked":          "chanTryRecv (ChanTryRecv, select with default, or a blocking select's receive case) saw p.sends > 0 on an unbuffered channel, set chanHasRecv and waits in its second loop; the counted sender (a registered select-send, or a sender that then served another receiver) never delivers to it: the operation - even a non-blocking one - blocks for ever inside chanTryRecv",
 	"tryselect-default-cases-probed-one-after-the-other":      "select with default took the default although at every instant of the call one of its cases was ready: TrySelect probes the cases in separate critical sections",
+	"select-sendfirst-receiver-refuses-select-senders":        "two blocking selects stay blocked although one sends and the other receives on the same unbuffered channel: the receiving select also has a send case on a channel with a lower address, so it probes its sends first (selectSendFirst) and then calls chanTryRecv with acceptSelectSend=false, and the sending select never finds an armed receiver",
+	"select-deadlock-while-matching-operations-pending":       "no thread can run although pending operations (at least one of them a select case) could complete together, or a pending operation is not blocked under Go's rules: a lost wake-up / missing notification",
 	"select-history-not-linearizable":                         "the observed results cannot be explained by Go's channel and select semantics",
 }
 
@@ -1062,12 +1107,12 @@ func TestVerifSel(t *testing.T) {
 	perCfg := 6
 	capsets := [][]int{{0}, {1}, {0, 0}, {0, 1}}
 	if tier == "thorough" {
-		perCfg = 400
+		perCfg = 120
 		capsets = [][]int{{0}, {1}, {2}, {0, 0}, {0, 1}, {1, 0}, {1, 1}}
 	}
 	for _, caps := range capsets {
 		xsystematic(caps, func(c XConfig) {
-			if total < 250000 {
+			if total < 120000 {
 				total += xdfs(c, 0, perCfg)
 			}
 		})
